@@ -163,6 +163,10 @@ def earlier_simulation(locks):
             for lock in locks:
                 scope.do(user(lock, 1))
                 scope.do(user(lock, 0.5))
+                # a holder and a waiter that are forcefully closed when that simulation ends
+                scope.do(user(lock, 1000), volatile=True)
+                scope.do(user(lock, 1000), volatile=True)
+            await (time + 3)
     usim.run(main())
 
 
